@@ -72,6 +72,15 @@ impl Cfg {
             Cfg::Ovl(_) | Cfg::OvlSub(..) => true,
         }
     }
+    /// an overlay one of whose layers is (or contains) an overlay
+    pub fn has_nested_overlay(&self) -> bool {
+        match self {
+            Cfg::Mem | Cfg::Phys => false,
+            Cfg::Alt(i, _) => i.has_nested_overlay(),
+            Cfg::Ovl(ls) => ls.iter().any(|l| l.contains_overlay()),
+            Cfg::OvlSub(i, _) => i.contains_overlay(),
+        }
+    }
     pub fn contains_phys(&self) -> bool {
         match self {
             Cfg::Mem => false,
